@@ -16,6 +16,7 @@
   other arguments is recorded as observations at the end.
 -/
 import EG.Lemmas.Mock
+import EG.Lemmas.MockArea
 namespace EG.C20
 open EG EG.Mock
 
@@ -170,5 +171,113 @@ erases the cell without any check. -/
 theorem set_pixel_panics_iff (d : MD) (p : Pt) (c : Option Color) :
     d.setPixel p c = none ↔ ¬ Inside p := by
   rw [setPixel_spec]; by_cases hp : Inside p <;> simp [hp]
+
+/-! ### Equality and `diff` -/
+
+/-- Two displays compare equal exactly when all 64 x 64 cells agree (stated over the cell
+function; the two flags are not part of the comparison). -/
+theorem eq_iff_cells (a b : MD) :
+    a.eq b = true ↔ ∀ p, Inside p → a.getPixel p = b.getPixel p := by
+  rw [eq_iff_pixels, pixels_eq_iff_cells]
+
+/-- `PartialEq` ignores `allow_overdraw` / `allow_out_of_bounds_drawing`. -/
+theorem eq_ignores_flags (a : MD) (o b : Bool) : a.eq ⟨a.pixels, o, b⟩ = true := by
+  rw [eq_iff_pixels]
+
+/-- `diff` never panics. -/
+theorem diff_total (a b : MD) : ∃ D, a.diff b = some D := by
+  obtain ⟨D, h, _⟩ := diff_spec a b; exact ⟨D, h⟩
+
+/-- Each cell of `diff` carries the documented colour code of the two cells it compares:
+`None` equal, green only in `self`, red only in `other`, blue both set and different. -/
+theorem diff_cells (a b D : MD) (h : a.diff b = some D) (p : Pt) (hp : Inside p)
+    (s o : Option Color) (hs : a.getPixel p = some s) (ho : b.getPixel p = some o) :
+    D.getPixel p = some (diffColor s o) := by
+  obtain ⟨D', h', hc⟩ := diff_spec a b
+  rw [h] at h'; cases h'
+  rw [getPixel_inside a hp] at hs
+  rw [getPixel_inside b hp] at ho
+  cases hs; cases ho
+  rw [getPixel_inside D hp, hc p hp]
+
+example : ∃ D, (MD.new.upd 5 (some 1)).diff MD.new = some D ∧ Inside ⟨5, 0⟩ ∧
+    (MD.new.upd 5 (some 1)).getPixel ⟨5, 0⟩ = some (some 1) ∧ MD.new.getPixel ⟨5, 0⟩ = some none := by
+  obtain ⟨D, h⟩ := diff_total (MD.new.upd 5 (some 1)) MD.new
+  exact ⟨D, h, by decide, rfl, rfl⟩
+
+/-- `diff` is empty (equal to a fresh display) exactly when all 64 x 64 cells agree. -/
+theorem diff_empty_iff (a b D : MD) (h : a.diff b = some D) :
+    D.eq MD.new = true ↔ ∀ p, Inside p → a.getPixel p = b.getPixel p := by
+  obtain ⟨D', h', hc⟩ := diff_spec a b
+  rw [h] at h'; cases h'
+  rw [eq_iff_cells]
+  constructor
+  · intro hD p hp
+    have := hD p hp
+    rw [getPixel_inside D hp, getPixel_inside MD.new hp, hc p hp, cell_new] at this
+    have hn : diffColor (a.cell p) (b.cell p) = none := by simpa using this
+    rw [getPixel_inside a hp, getPixel_inside b hp, (diffColor_eq_none_iff _ _).mp hn]
+  · intro hab p hp
+    have := hab p hp
+    rw [getPixel_inside a hp, getPixel_inside b hp] at this
+    have he : a.cell p = b.cell p := by simpa using this
+    rw [getPixel_inside D hp, getPixel_inside MD.new hp, hc p hp, cell_new,
+      (diffColor_eq_none_iff _ _).mpr he]
+
+/-- ... i.e. exactly when the displays compare equal. -/
+theorem diff_empty_iff_eq (a b D : MD) (h : a.diff b = some D) :
+    D.eq MD.new = true ↔ a.eq b = true := by
+  rw [diff_empty_iff a b D h, eq_iff_cells]
+
+/-! ### `affected_area` -/
+
+/-- `affected_area` contains every touched cell. -/
+theorem affected_area_contains (d : MD) (p : Pt) (h : Touched d p) :
+    d.affectedArea.contains p = true := by
+  obtain ⟨tl, br, he, ht⟩ := affectedArea_of_touched d ⟨p, h⟩
+  have hb := ht.bound p ((touched_iff d p).mpr h)
+  rw [he, Rect.contains_withCorners]; omega
+
+example : Touched (MD.new.upd 5 (some 1)) ⟨5, 0⟩ := ⟨by decide, 1, rfl⟩
+
+/-- Tight: each of the four sides of `affected_area` passes through a touched cell. -/
+theorem affected_area_sides_touch (d : MD) (h : ∃ p, Touched d p) :
+    (∃ p, Touched d p ∧ p.x = d.affectedArea.tl.x) ∧
+    (∃ p, Touched d p ∧ p.y = d.affectedArea.tl.y) ∧
+    (∃ p, Touched d p ∧ p.x = d.affectedArea.tl.x + d.affectedArea.size.w - 1) ∧
+    (∃ p, Touched d p ∧ p.y = d.affectedArea.tl.y + d.affectedArea.size.h - 1) := by
+  obtain ⟨tl, br, he, ht⟩ := affectedArea_of_touched d h
+  obtain ⟨e1, e2, e3⟩ := tight_sides ht
+  rw [he, e2, e3, e1]
+  obtain ⟨l, hl, hl'⟩ := ht.left
+  obtain ⟨t, htt, ht'⟩ := ht.top
+  obtain ⟨r, hr, hr'⟩ := ht.right
+  obtain ⟨b, hb, hb'⟩ := ht.bottom
+  exact ⟨⟨l, (touched_iff d l).mp hl, hl'⟩, ⟨t, (touched_iff d t).mp htt, ht'⟩,
+    ⟨r, (touched_iff d r).mp hr, hr'⟩, ⟨b, (touched_iff d b).mp hb, hb'⟩⟩
+
+/-- Hence it is the least rectangle containing the touched cells. -/
+theorem affected_area_least (d : MD) (r : Rect) (h : ∀ p, Touched d p → r.contains p = true)
+    (q : Pt) (hq : d.affectedArea.contains q = true) : r.contains q = true := by
+  by_cases hex : ∃ p, Touched d p
+  · obtain ⟨⟨l, hl, hl'⟩, ⟨t, ht, ht'⟩, ⟨rr, hr, hr'⟩, ⟨b, hb, hb'⟩⟩ := affected_area_sides_touch d hex
+    have h1 := Rect.contains_iff.mp (h l hl)
+    have h2 := Rect.contains_iff.mp (h t ht)
+    have h3 := Rect.contains_iff.mp (h rr hr)
+    have h4 := Rect.contains_iff.mp (h b hb)
+    rw [Rect.contains_iff] at hq ⊢
+    omega
+  · rw [affectedArea_of_untouched d hex] at hq
+    rw [Rect.contains_false_of_zero (Or.inl rfl)] at hq
+    cases hq
+
+/-- Zero-sized (`Rectangle::zero()`) when nothing is touched. -/
+theorem affected_area_zero_of_untouched (d : MD) (h : ¬ ∃ p, Touched d p) :
+    d.affectedArea = Rect.zero := affectedArea_of_untouched d h
+
+example : ¬ ∃ p, Touched MD.new p := by
+  rintro ⟨p, hp, c, hc⟩
+  rw [getPixel_inside MD.new hp, cell_new] at hc
+  cases hc
 
 end EG.C20
